@@ -20,8 +20,9 @@ def cases(tier, seed):
     out = []
     N, G = (4, 2) if tier == "quick" else (6, 3)
     bounds = [None] + list(range(-N - 1, N + 2))
+    dts = DTYPES if tier == "quick" else DTYPES + ["int8", "int16", "uint8", "uint32", "datetime64[s]", "timedelta64[ms]"]
     for func in R.FUNCS:
-        for dt in DTYPES:
+        for dt in dts:
             if not _valid(func, dt):
                 continue
             base = {"func": func, "dtype": dt, "N": N, "G": G, "threads": 1}
